@@ -15,9 +15,12 @@ func (v *Vue) evalInclude(ctx VueContext, node *html.Node, vars map[string]any, 
 	ctx.stack.Push(vars)
 	defer ctx.stack.Pop()
 
-	// Extract slot content from the component tag if not already processed
-	if ctx.SlotScope == nil {
-		ctx.SlotScope = extractSlotContent(node)
+	// Every include has its own slot content: the children of its tag. The content
+	// remembers the includer's slot scope for <slot> elements written inside it.
+	parentScope := ctx.SlotScope
+	ctx.SlotScope = extractSlotContent(node)
+	for _, content := range ctx.SlotScope.Slots {
+		content.Scope = parentScope
 	}
 
 	// Merge inherited slots from parent template (passed via __slotScope__ in data)
